@@ -18,6 +18,7 @@ pub struct SentObs {
     pub nnodes: usize,
     pub has_unk: bool,
     pub alt: Vec<Vec<String>>,
+    pub pre: usize,
 }
 
 fn dnode(r: &[i64; 8]) -> String {
@@ -61,6 +62,7 @@ pub fn observe(dict: &vibrato::Dictionary, worker: &mut vibrato::tokenizer::work
     let cinfos_t = clist(&cinfos, |c| format!("({},{},{},{},{})", c.0, c.1, cbool(c.2), cbool(c.3), c.4));
     // operation pattern on the reused worker (the model always tokenizes once on a fresh worker)
     let pattern = rng.below(8);
+    let mut pre = 0usize;
     let res = std::panic::catch_unwind(std::panic::AssertUnwindSafe(|| {
         if pattern == 0 {
             worker.reset_sentence(text);
@@ -71,6 +73,7 @@ pub fn observe(dict: &vibrato::Dictionary, worker: &mut vibrato::tokenizer::work
             worker.tokenize();
         }
         worker.reset_sentence(text);
+        pre = worker.num_tokens(); // read between reset_sentence and tokenize
         worker.tokenize();
         if pattern == 2 || pattern == 3 {
             let _ = worker.num_tokens();
@@ -86,7 +89,7 @@ pub fn observe(dict: &vibrato::Dictionary, worker: &mut vibrato::tokenizer::work
     if res.is_err() {
         return SentObs {
             text: text.to_string(), outcome: 2, tokens: vec![], ends: "[]".into(), eos: "None".into(),
-            group: vec![], cinfos: cinfos_t, counts: None, ntokens: 0, nnodes: 0, has_unk: false, alt: vec![],
+            group: vec![], cinfos: cinfos_t, counts: None, ntokens: 0, nnodes: 0, has_unk: false, alt: vec![], pre,
         };
     }
     let (tokens, has_unk) = token_terms(worker);
@@ -100,17 +103,17 @@ pub fn observe(dict: &vibrato::Dictionary, worker: &mut vibrato::tokenizer::work
     SentObs {
         text: text.to_string(), outcome: 0, ntokens: tokens.len(), tokens, ends: ends_t, eos: eos_t,
         group: worker.verif_groupable(), cinfos: cinfos_t,
-        counts: if counting { worker.verif_counts() } else { None }, nnodes, has_unk, alt: vec![],
+        counts: if counting { worker.verif_counts() } else { None }, nnodes, has_unk, alt: vec![], pre,
     }
 }
 
 pub fn sentobs_term(o: &SentObs) -> String {
     format!(
-        "(Build_sentobs {} {} {} {} {} {} {} {} {})",
+        "(Build_sentobs {} {} {} {} {} {} {} {} {} {})",
         cstr(&o.text), o.outcome, clist(&o.tokens, |t| t.clone()), o.ends, o.eos,
         clist(&o.group, |g| cn(g)), o.cinfos,
         copt(&o.counts, |(l, r)| format!("({}, {})", clist(l, |x| cn(x)), clist(r, |x| cn(x)))),
-        clist(&o.alt, |a| clist(a, |t| t.clone()))
+        clist(&o.alt, |a| clist(a, |t| t.clone())), o.pre
     )
 }
 
